@@ -426,6 +426,25 @@ func (w *World) fetch(from *Server, iri string) ([]byte, string) {
 			return []byte("[1,2,3]"), "notobject"
 		case "unknowntype":
 			return []byte(`{"@context":"` + asCtx + `","type":"Frobnicate","id":"` + iri + `"}`), "unknowntype"
+		case "trailing":
+			// the complete document followed by something else (a proxy's error page appended): not a JSON document
+			if b, ok := w.Remote[iri]; ok {
+				return append(append([]byte(nil), b...), []byte("\n<html><body>502 Bad Gateway</body></html>")...), "trailing"
+			}
+			return []byte("{} trailing"), "trailing"
+		case "nocontext", "notype":
+			// valid JSON that cannot be interpreted: the document without its @context, or without its type
+			if b, ok := w.Remote[iri]; ok {
+				if m, err := parseJ(b); err == nil {
+					if f == "nocontext" {
+						delete(m, "@context")
+					} else {
+						delete(m, "type")
+					}
+					return mustJSON(m), f
+				}
+			}
+			return []byte(`{"id":"` + iri + `"}`), f
 		}
 	}
 	if b, ok := w.Remote[iri]; ok {
